@@ -35,6 +35,34 @@ def gen_cases(rng, n):
             fac = ("StlDiscreteTimeOnlineSpecification" if online else "StlDiscreteTimeOfflineSpecification") if rng.random() < 0.5 else "StlDiscreteTimeSpecification"
             objs.append(dt_obj(phi, S, allv, factory=fac))
             kinds.append(online)
+        if rng.random() < 0.15:
+            # the same specification *text* on objects with different sampling periods: the printed operator names coincide, the
+            # numbers of samples the bounds denote do not (seed C11-f: a process-wide memo keyed by the operator name)
+            import copy as _copy
+            online = rng.random() < 0.3
+            g = Gen(rng, vars_=vs, S=1, ops=["not", "and", "or", "onceT", "histT", "sinceT"] + ([] if online else ["evT", "alwT", "untilT"]),
+                    ivs=[(0, 2), (2, 4), (2, 2), (0, 4)], bool_atoms=False)
+            for _ in range(30):
+                wr = g.formula(rng.choice([1, 1, 2]))
+                if ops_of(wr) & TIMED:
+                    break
+            else:
+                wr = un("onceT", pred("ge", var(vs[0]), const(0)), 0, 2)
+            for q in subformulas(wr):
+                if q["op"] in TIMED:
+                    q.update({"aw": [q["a"], 1], "bw": [q["b"], 1], "au": "", "bu": "", "at": str(q["a"]), "bt": str(q["b"]),
+                              "fa": str(q["a"]), "fb": str(q["b"])})
+            S = 1
+            objs, kinds = [], []
+            pers = [(1, "s"), (2, "s"), (500, "ms")]
+            rng.shuffle(pers)
+            for k in range(K if K > 1 else 2):
+                pn, pu = pers[k]
+                fac = ("StlDiscreteTimeOnlineSpecification" if online else "StlDiscreteTimeOfflineSpecification") if rng.random() < 0.5 else "StlDiscreteTimeSpecification"
+                objs.append(dt_obj(wr, 1, vs, factory=fac, text="out = " + to_text(wr, 1), written=_copy.deepcopy(wr),
+                                   units={"def": "s", "pnum": pn, "pden": 1, "punit": pu}, unit="s", set_period=[pn, pu, 0.1], styles=[]))
+                kinds.append(online)
+            K = len(objs)
         N = rng.choice([1, 2, 3, 4, 6])
         w = gen_trace(rng, vs, N, S)
         own = rng.random() < 0.5          # online objects get their own data stream (cross-talk between objects shows)
@@ -56,7 +84,7 @@ def gen_cases(rng, n):
         while any(pos[k] < len(steps[k]) for k in range(K)):
             k = rng.choice([k for k in range(K) if pos[k] < len(steps[k])])
             evs.append(steps[k][pos[k]]); pos[k] += 1
-        cases.append(case(objs, evs, skip=["evaluate.viol"]))
+        cases.append(case(objs, evs, skip=["evaluate.viol"] + (["update.viol"] if "written" in objs[0] else [])))
     return cases
 
 
